@@ -20,7 +20,7 @@ def one_pass(ctx, accept):
     if not ctx.quick:
         cfg = cfg.replace('MaxMut = 2', 'MaxMut = 3')
     n = ctx.tlc_vectors('RxPipeline', 'Vec_RxPipeline_%s.cfg' % accept, cfgtext=cfg, out='vectors.ndjson')
-    res = ctx.gotest('e2e', 'TestVerif_C14', tags='verif e2e_testing', also=('net',), timeout=2400,
+    res = ctx.gotest('e2e', 'TestVerif_C14', tags='verif e2e_testing', also=('net',), timeout=600 if ctx.quick else 2400,
                      env={'VERIF_C14_ACCEPT_RECV_ERROR': accept}, name='c14_' + accept)
     ctx.traces += res.get('evaluations', 0)
     return res
